@@ -478,6 +478,17 @@ func ruleC12Hooks(cx *Ctx) {
 					}
 				}
 				as.check(name+" "+e.Kind, ok, "deadline = saturating (clock sample of this operation + duration of this path)", "stored "+v, o)
+				// one sample per operation: the entry whose deadline is moved was judged alive against the very sample the new
+				// deadline is dated from (with two samples an entry that expired in between is resurrected)
+				if ok && (e.Kind == "SetExpiresAt" || e.Kind == "CASExpiresAt") {
+					base := strings.SplitN(v[7:len(v)-1], ",", 2)[0]
+					for atom := range o.S.preds {
+						if strings.HasPrefix(atom, "Expired("+e.Args[0]+",") && strings.HasSuffix(atom, ")") {
+							judged := atom[len("Expired("+e.Args[0]+",") : len(atom)-1]
+							as.check(name+" "+e.Kind+": liveness and deadline use one clock sample", judged == base, "the expiry test of the entry and the base of its new deadline are the same clock sample", "judged at "+judged+", dated from "+base, o)
+						}
+					}
+				}
 			}
 			// --- hooks on install
 			for _, c := range tableComps(o) {
